@@ -24,6 +24,71 @@ ASSUMPTIONS = [
 ]
 
 PLACE = "SELFCLS"
+STRUCT_MEMBERS = ("parent", "children", "__check_loop", "__detach", "__attach", "__children_or_empty", "__check_children")
+
+
+def _trace_signatures(p, clsname):
+    from ..events import label, traces_for
+    out, _ = traces_for(p, clsname, 2)
+    sigs = {}
+    for name, (func, res, it) in out.items():
+        ss = set()
+        for trace, outcome, st in res:
+            if any(ev.kind == "RAISE" and ev.exc == "TreeError" and ev.node is not None and _is_typecheck_raise(ev) for ev in trace):
+                continue  # NodeMixin-only node-type refusal (frozen difference, dead for tree nodes)
+            sig = []
+            for ev in trace:
+                if ev.kind == "HOOK":
+                    sig.append(("H", ev.name, label(ev.recv), tuple(label(a) for a in ev.args)))
+                elif ev.kind == "WRITE":
+                    sig.append(("W", label(ev.recv), ev.field, label(ev.value)))
+                elif ev.kind == "RAISE":
+                    sig.append(("R", ev.exc))
+                elif ev.kind == "REENTER":
+                    sig.append(("REENTER", label(ev.recv), tuple(label(a) for a in (ev.args or ()))))
+                elif ev.kind in ("LISTREAD", "LAZYINIT"):
+                    sig.append((ev.kind, label(ev.recv)))
+                elif ev.kind in ("USERITER", "RERAISE", "HANDLER", "SETATTR", "DELATTR", "SETITEM"):
+                    sig.append((ev.kind,))
+                elif ev.kind == "UNKNOWNCALL":
+                    sig.append(("U", (ev.text or "").replace(clsname, PLACE)))
+                elif ev.kind == "GUARD" and _inside_typecheck(ev):
+                    continue
+                elif ev.kind == "GUARD" and ev.name in ("is", "ancestor-scan"):
+                    ab = (label(ev.a), label(ev.b))
+                    sig.append(("G", ev.name) + (tuple(sorted(ab)) if ev.name == "is" else ab) + (ev.outcome,))
+                elif ev.kind == "GUARD" and ev.name == "opaque" and "isinstance" not in (ev.text or ""):
+                    sig.append(("G", "opaque", (ev.text or "").replace(clsname, PLACE), ev.outcome))
+            oc = outcome[0] if outcome[0] == "return" else "raise:%s" % outcome[1].cls
+            ss.add((tuple(sig), oc))
+        sigs[name] = ss
+    return sigs
+
+
+def _is_typecheck_raise(ev):
+    n = ev.node
+    return isinstance(n, ast.Raise) and "not of type" in norm(n) or "non-node object" in norm(n) or _inside_typecheck(ev)
+
+
+def _inside_typecheck(ev):
+    f = ev.func
+    for t in typecheck_statements(f.node):
+        if any(x is ev.node for x in ast.walk(t)):
+            return True
+    return False
+
+
+def _same_traces(p):
+    a = _trace_signatures(p, "NodeMixin")
+    b = _trace_signatures(p, "LightNodeMixin")
+    for name in sorted(a):
+        only_a = a[name] - b.get(name, set())
+        only_b = b.get(name, set()) - a[name]
+        if only_a or only_b:
+            ex = sorted(only_a or only_b, key=lambda t: len(t[0]))[0]
+            return False, "%s has %d trace(s) only in NodeMixin and %d only in LightNodeMixin, e.g. %s → %s" % (
+                name, len(only_a), len(only_b), " ; ".join(str(x) for x in ex[0][-6:]), ex[1])
+    return True, ""
 
 
 class _Canon(ast.NodeTransformer):
@@ -297,6 +362,7 @@ def run(ctx):
         ctx.viol("M1", f, f.node, "member exists only in LightNodeMixin: the two mixins no longer offer the same interface",
                  construct="def %s (%s)" % key)
     # --- member pairs
+    struct_diffs = []
     for key in sorted(set(a) & set(b)):
         fa, fb = a[key], b[key]
         programs += 1
@@ -316,11 +382,26 @@ def run(ctx):
                      construct="decorators of %s (%s)" % key)
         elif sa != sb:
             d = first_diff(na, nb) or "?"
-            ctx.viol("M4", fb, fb.node,
-                     "body differs from its NodeMixin namesake after normalisation — an edit applied to one copy only; "
-                     "first difference at %s" % d, construct="%s (%s): %s" % (key[0], key[1], d))
+            if key[0] in STRUCT_MEMBERS:
+                struct_diffs.append((key, fa, fb, d))
+            else:
+                ctx.viol("M4", fb, fb.node,
+                         "body differs from its NodeMixin namesake after normalisation — an edit applied to one copy only; "
+                         "first difference at %s" % d, construct="%s (%s): %s" % (key[0], key[1], d))
         else:
             ctx.inst("M4", fb, "%s (%s)" % key, "equal to NodeMixin.%s modulo renaming" % key[0])
+    if struct_diffs:
+        # members of the mutators that differ syntactically: equal programs in the sense that matters if the
+        # two mixins have the same set of abstract event traces for the three structural entry points
+        same, detail = _same_traces(p)
+        for key, fa, fb, d in struct_diffs:
+            if same:
+                ctx.inst("M4", fb, "%s (%s)" % key, "differs syntactically from NodeMixin.%s but both mixins have identical abstract "
+                         "event traces (hooks, link writes, guards, raises) for parent/children assignment and deletion" % key[0])
+            else:
+                ctx.viol("M4", fb, fb.node,
+                         "body differs from its NodeMixin namesake (first difference at %s) and the abstract event traces of the two "
+                         "mixins differ: %s" % (d, detail), construct="%s (%s): %s" % (key[0], key[1], d))
     ctx.floor("M4", 28)
     # --- class-level assignments
     ca = {k: v for k, v in nm.assigns.items()}
